@@ -287,6 +287,11 @@ def _impl_observe(raw):
         tx = Transaction(raw)
     except Exception as e:
         return {'err': err_name(e)}
+    return observe_tx(tx, raw)
+
+
+def observe_tx(tx, raw):
+    """everything observed of a parsed Transaction object (freshly parsed, or handed out by the wallet database)"""
     ins = []
     for i, txi in enumerate(tx.inputs):
         cb = txi.is_coinbase
@@ -313,6 +318,49 @@ def _impl_observe(raw):
     return {'version': tx.version, 'flag': tx.is_segwit_flag, 'ins': ins, 'outs': outs,
             'wits': [w.hex() for w in tx.witnesses], 'locktime': tx.locktime, 'reser': reser, 'id': txid,
             'raw_kept': tx.raw == raw}
+
+
+def impl_interpret(raw):
+    """Transaction(raw).outputs[k].script interpreted: template name, pushed values, claim predicates"""
+    tx = Transaction(raw)
+    out = []
+    for txo in tx.outputs:
+        try:
+            scr = txo.script
+            out.append({'template': scr.template.name,
+                        'values': {k: (v.hex() if isinstance(v, (bytes, bytearray)) else repr(v)) for k, v in scr.values.items()},
+                        'is_claim_name': scr.is_claim_name, 'is_update_claim': scr.is_update_claim,
+                        'is_support_claim': scr.is_support_claim, 'is_claim_involved': scr.is_claim_involved,
+                        'is_claim': txo.is_claim})
+        except Exception as e:
+            out.append({'err': err_name(e)})
+    return out
+
+
+def monitor_interpret(tpls, got):
+    """every output the library built from template values must be recognised, after the round trip through bytes,
+    as that kind with those values"""
+    for k, tpl in enumerate(tpls):
+        if not tpl:
+            continue
+        g = got[k]
+        name = tpl['template']
+        if 'err' in g:
+            return f'parsed output {k} ({name}) cannot be interpreted any more: {g["err"]}'
+        if g['template'] != name:
+            return f'parsed output {k} was built as {name} but is read as {g["template"]}'
+        if g['values'] != tpl['values']:
+            bad = [f for f in tpl['values'] if g['values'].get(f) != tpl['values'][f]]
+            return (f'parsed output {k} ({name}): value(s) {bad} differ from what was built '
+                    f'(lengths built {[len(tpl["values"][f]) // 2 for f in bad]}, read {[len(g["values"].get(f, "")) // 2 for f in bad]})')
+        want = {'is_claim_name': name.startswith('claim_name+'), 'is_update_claim': name.startswith('update_claim+'),
+                'is_support_claim': name.startswith('support_claim+')}
+        want['is_claim_involved'] = any(want.values())
+        want['is_claim'] = want['is_claim_name'] or want['is_update_claim']
+        for f, v in want.items():
+            if g[f] != v:
+                return f'parsed output {k} ({name}): {f} is {g[f]}'
+    return None
 
 
 def impl_cs_encode(n):
@@ -761,6 +809,11 @@ def run_build(run, model, t, kind, kinds=(), tpls=None):
                         f'of the same values is {[t["outs"][k][1][:80] for k in wrong[:3]]}')
         run.violation(case, bad, signature={'op': 'build', 'tx': t})
         return
+    if tpls and any(tpls):
+        bad = monitor_interpret(tpls, impl_interpret(raw))
+        if bad:
+            run.violation(case, bad, signature={'op': 'build', 'tx': t})
+            return
     run.compare('C05.build_raw', case, built, mbuilt)
     run.compare('C05.deserialize', case, strip_impl(parsed), model_observe(model, raw))
     # the pure Gallina serialiser the theorems are stated about agrees with the faithful one
@@ -927,33 +980,75 @@ def mk_input(row):
     return Input(TXORef(TXRefImmutable.from_hash(h, -1), idx), scr if h == NULL32 else InputScript(scr), seq)
 
 
+class CacheLog:
+    """the history of one Transaction object as operations of Model/C05Cache.v (edit / add / reset / raw / id) together with
+    what the implementation returned at every read -- stale reads included: the model predicts those too"""
+
+    def __init__(self, tx):
+        self.init = current_fields(tx)
+        self.ok = in_range(self.init)
+        self.ops, self.reads = [], []
+
+    def fields(self, tx, kind):
+        cur = current_fields(tx)
+        self.ok = self.ok and in_range(cur)
+        self.ops.append([kind, cur])
+
+    def reset(self):
+        self.ops.append(['reset'])
+
+    def read(self, tx):
+        try:
+            raw, idv = tx.raw.hex(), bytes.fromhex(tx.id).hex()
+            tx.size
+        except Exception:
+            self.ok = False
+            return None
+        self.ops += [['raw'], ['id']]
+        self.reads += [raw, idv]
+        return raw, idv
+
+    def compare(self, run, model, case):
+        if self.ok and self.reads:
+            return run.compare('C05.cache', case, self.reads, model.call('cache', tx=self.init, ops=self.ops))
+        return True
+
+
 def run_sequence(run, model, case):
     """case = {'op': 'seq', 'version', 'locktime', 'steps': [[name, arg]...]}"""
     if saturated(run):
         return
     tx = Transaction(version=case['version'], locktime=case['locktime'])
+    log = CacheLog(tx)
     run.case(case, nontrivial=True, sample=len(json.dumps(case)) < 1200)
     n_checks = 0
     for step in case['steps']:
         name = step[0]
         if name == 'add_in':
             tx.add_inputs([mk_input(r) for r in step[1]])
+            log.fields(tx, 'add')
         elif name == 'add_out':
             tx.add_outputs([Output(a, OutputScript(bytes.fromhex(scr))) for a, scr in step[1]])
+            log.fields(tx, 'add')
         elif name == 'touch':
-            _touch(tx)
+            log.read(tx)
         elif name == 'edit':
             apply_edit(tx, step[1])
+            log.fields(tx, 'edit')
             run.count('seq:edit:' + step[1]['kind'])
         elif name == 'reset':
             tx._reset()
+            log.reset()
         elif name == 'check':
             n_checks += 1
             if not tx.inputs:
                 continue
+            log.read(tx)
             if not check_current(run, model, case, tx, 'step %d' % case['steps'].index(step)):
                 return
     run.count('seq:checks=%d' % n_checks)
+    run.count('seq:cache-history-compared' if log.ok else 'seq:cache-history-skipped(out-of-range)')
+    log.compare(run, model, case)
 
 
 BLOB_FIELDS = {'claim_name+pay_pubkey_hash': 'claim', 'claim_name+pay_script_hash': 'claim',
@@ -1025,6 +1120,8 @@ def gen_sequence(rng):
             steps.append(['touch'])               # serialised AFTER the last add_outputs: the blob is cached now
         for e in edits():
             steps.append(['edit', e])
+            if rng.random() < 0.25:
+                steps.append(['touch'])           # stale read: cached bytes of the fields before the edit (model predicts it)
         steps.append(['reset'])
         steps.append(['check'])
         if pending and rng.random() < 0.4:
@@ -1072,6 +1169,35 @@ def _utxo(rng, amount, pkh):
     return Transaction(height=-2).add_inputs([Input.spend(feeder.outputs[0])]).add_outputs(outs).outputs[pos]
 
 
+def sign_observed(env, tx, max_reads=6):
+    """await tx.sign([account]) with the REAL ledger (its key lookup awaits the wallet database) while another
+    task on the same loop keeps reading tx.raw / tx.id / tx.size.  Returns the CacheLog of what happened."""
+    log = CacheLog(tx)
+    log.reset()                                   # sign() starts with _reset(), before its first await
+    state = {'done': False, 'n': 0}
+
+    async def observer():
+        while not state['done']:
+            if state['n'] < max_reads:
+                log.fields(tx, 'edit')            # whatever sign() has written in place so far
+                log.read(tx)
+                state['n'] += 1
+            await asyncio.sleep(0)
+
+    async def go():
+        task = env.loop.create_task(observer())
+        await tx.sign([env.account])
+        state['done'] = True
+        await task
+
+    env.loop.run_until_complete(go())
+    log.fields(tx, 'edit')                        # the signatures written in place
+    log.reset()                                   # sign() ends with _reset()
+    log.read(tx)
+    log.observer_reads = state['n']
+    return log
+
+
 def run_flow(run, model, env, case):
     """case = {'op': 'flow', 'flow': 'channel'|'stream', 'seed': int, 'funding': 'exact'|'change'|'manual'}"""
     if saturated(run):
@@ -1115,8 +1241,11 @@ def run_flow(run, model, env, case):
         tx._reset()
         if not check_current(run, model, case, tx, 'channel: after set_channel_private_key + _reset'):
             return
-    loop.run_until_complete(tx.sign([account]))
-    if not check_current(run, model, case, tx, 'channel: after set_channel_private_key + sign'):
+    log = sign_observed(env, tx)
+    run.count('sign:observer-reads-during-sign=%s' % ('0' if not log.observer_reads else '>0'))
+    if not check_current(run, model, case, tx, 'channel: after set_channel_private_key + sign (raw/id/size read by another task meanwhile)'):
+        return
+    if not log.compare(run, model, dict(case, at='channel sign')):
         return
     parsed = Transaction(tx.raw)
     try:
@@ -1141,8 +1270,11 @@ def run_flow(run, model, env, case):
         tx2._reset()
         if not check_current(run, model, case, tx2, 'stream: after Output.sign(channel) + _reset'):
             return
-    loop.run_until_complete(tx2.sign([account]))
-    if not check_current(run, model, case, tx2, 'stream: after Output.sign(channel) + sign'):
+    log = sign_observed(env, tx2)
+    run.count('sign:observer-reads-during-sign=%s' % ('0' if not log.observer_reads else '>0'))
+    if not check_current(run, model, case, tx2, 'stream: after Output.sign(channel) + sign (raw/id/size read by another task meanwhile)'):
+        return
+    if not log.compare(run, model, dict(case, at='stream sign')):
         return
     parsed2 = Transaction(tx2.raw)
     try:
@@ -1185,8 +1317,11 @@ def check_linked(run, model, case, tx_a, tx_b, links, label):
         bad = monitor_build(expect, built, parsed)
         if bad:
             wrong = [k for k, i in links if 'err' not in parsed and parsed['ins'][k][0] != a_hash.hex()]
-            bad = (f'{label}: {bad}: B spends outputs of A (current id {a_id}) but the previous-transaction hash written '
-                   f'for input(s) {wrong} is {[bytes.fromhex(parsed["ins"][k][0])[::-1].hex() for k in wrong]}')
+            if wrong:
+                bad = (f'{label}: {bad}: B spends outputs of A (current id {a_id}) but the previous-transaction hash '
+                       f'written for input(s) {wrong} is {[bytes.fromhex(parsed["ins"][k][0])[::-1].hex() for k in wrong]}')
+            else:
+                bad = f'{label}: {bad} (fields taken from the Transaction object as it is now)'
         else:
             for k, i in links:
                 if tx_b.inputs[k].txo_ref.id != f'{a_id}:{i}' or tx_a.outputs[i].id != f'{a_id}:{i}':
@@ -1304,15 +1439,97 @@ def run_chain_flow(run, model, env, case):
     if rng.random() < 0.5:
         _touch(tx_b)
     if case['how'] in ('sign', 'both'):
-        loop.run_until_complete(tx_a.sign([account]))
+        log = sign_observed(env, tx_a)
+        run.count('sign:observer-reads-during-sign=%s' % ('0' if not log.observer_reads else '>0'))
+        if not check_current(run, model, case, tx_a, 'chain: A after sign (raw/id/size read by another task meanwhile)'):
+            return
+        if not log.compare(run, model, dict(case, where='A sign')):
+            return
     if case['how'] in ('change', 'both'):
         tx_a.add_outputs([Output.pay_pubkey_hash(rng.randrange(1000, 10 ** 6), h0)])
     tx_b._reset()
     links = list(enumerate(picks))
     if not check_linked(run, model, case, tx_a, tx_b, links, 'chain: after A was finalised (%s)' % case['how']):
         return
-    loop.run_until_complete(tx_b.sign([account]))
-    check_linked(run, model, case, tx_a, tx_b, links, 'chain: after B was signed too')
+    log = sign_observed(env, tx_b)
+    if check_linked(run, model, case, tx_a, tx_b, links, 'chain: after B was signed too (raw/id/size read by another task meanwhile)'):
+        log.compare(run, model, dict(case, where='B sign'))
+
+
+def run_db(run, model, env, case):
+    """a transaction as it arrives from the network is stored through the wallet database's sync path
+    (Database.save_transaction_io, or insert_transaction) and read back (get_transaction, get_txos): what comes back must
+    be the same transaction -- identical bytes, marker/flag/witnesses included, same fields, same id.
+    case = {'op': 'db', 'raw': hex, 'via': 'save_io' | 'insert', 'height': int}"""
+    if saturated(run):
+        return
+    raw = bytes.fromhex(case['raw'])
+    db, loop = env.ledger.db, env.loop
+    run.case(case, nontrivial=True, sample=len(raw) < 300)
+    try:
+        ref = ref_decode(raw)
+    except (RefError, struct.error):
+        ref = None
+    if ref is None:
+        run.violation(case, 'harness: a db case must be a valid transaction', signature={'op': 'db', 'raw': case['raw']})
+        return
+    run.count('db:%s:%s' % (case['via'], 'segwit' if ref[1] is not None else 'legacy'))
+    received = Transaction(raw, height=case['height'])
+    txid = received.id
+
+    async def go():
+        if case['via'] == 'insert':
+            await db.db.execute_fetchall("DELETE FROM tx WHERE txid = ?", (txid,))
+            await db.insert_transaction(received)
+        else:
+            await db.save_transaction_io(received, env.addresses[0], env.hashes[0], f'{txid}:{case["height"]}:')
+        stored = await db.get_transaction(txid=txid)
+        txos = await db.get_txos(txid=txid, is_my_output=None, no_channel_info=True)
+        return stored, txos
+
+    stored, txos = loop.run_until_complete(go())
+    if stored is None:
+        run.violation(case, 'the stored transaction is not found under its id', signature={'op': 'db', 'raw': case['raw']})
+        return
+    obs = observe_tx(stored, raw)
+    bad, _ref = monitor_raw(raw, obs)
+    if stored.raw != raw:
+        bad = (f'after Database store + get_transaction: the bytes handed out ({len(stored.raw)}) are not the bytes that were '
+               f'stored ({len(raw)})' + ('; marker, flag and witness stacks are gone' if stored.raw == ref_encode(ref[0]) and
+                                         ref[1] is not None else '') + f'; segwit flag {stored.is_segwit_flag}, '
+               f'{len(stored.witnesses)} witness items')
+    elif bad:
+        bad = 'after Database store + get_transaction: ' + bad.replace(
+            'Transaction.raw is not the bytes it was built from',
+            f'the bytes handed out ({len(stored.raw)}) are not the bytes that were stored ({len(raw)})')
+    elif stored.height != case['height']:
+        bad = 'height changed in the database'
+    else:
+        run.count('db:txos-read-back', len(txos))
+        for txo in txos:
+            if txo.tx_ref.tx.raw != raw:
+                bad = 'get_txos() rebuilt the owning transaction from different bytes than were stored'
+                break
+    if bad:
+        run.violation(case, bad, signature={'op': 'db', 'raw': case['raw']})
+    else:
+        run.compare('C05.deserialize', case, strip_impl(obs), model_observe(model, raw))
+
+
+def db_cases(rng, env, corpus, small_valid, n):
+    """corpus transactions, P2WSH-shaped segwit spends, and generated legacy / segwit encodings some of which pay us"""
+    out = [bytes.fromhex(c['raw']) for c in corpus]
+    for t, wits in boundary_segwit():
+        if t['locktime'] - 650_000 in (0, 253, 521, 3600) and len(t['ins']) <= 2:
+            out.append(ref_encode(t, wits, 1))
+    mine = ref_script('pay_pubkey_hash', {'pubkey_hash': env.hashes[0]}).hex()
+    for t in small_valid[:n]:
+        t = json.loads(json.dumps(t))
+        if t['outs'] and rng.random() < 0.5:
+            t['outs'][rng.randrange(len(t['outs']))] = [rng.randrange(1, 10 ** 9), mine]
+        out.append(ref_encode(t, gen_wits(rng, t, big_ok=False), 1) if rng.random() < 0.6 else ref_encode(t))
+    return [{'op': 'db', 'raw': r.hex(), 'via': 'insert' if rng.random() < 0.3 else 'save_io',
+             'height': rng.choice([0, 0, -1])} for r in out]
 
 
 def wbucket(n):
@@ -1386,6 +1603,17 @@ def boundary_template_txs():
                 tpl = {'template': name, 'values': {k: v.hex() for k, v in values.items()}}
                 t = {'version': 1, 'locktime': 0, 'ins': [[h, 0, '', U32]], 'outs': [[1000, ref_script(name, values).hex()]]}
                 yield t, [tpl]
+    # payloads across the OP_PUSHDATA2 / OP_PUSHDATA4 boundary (a stream claim with a ~64 KiB description)
+    for name, f in (('claim_name+pay_pubkey_hash', 'claim'), ('update_claim+pay_script_hash', 'claim'),
+                    ('support_claim+data+pay_pubkey_hash', 'support'), ('return_data', 'data')):
+        for n in (65535, 65536, 65537, 70001):
+            values = {k: fixed[k] for k in REF_TEMPLATES[name] if not isinstance(k, int)}
+            values[f] = bytes((5 * j + 1) % 256 for j in range(n))
+            tpl = {'template': name, 'values': {k: v.hex() for k, v in values.items()}}
+            t = {'version': 1, 'locktime': 0, 'ins': [[h, 0, '', U32]],
+                 'outs': [[1, ref_script('pay_pubkey_hash', {'pubkey_hash': fixed['pubkey_hash']}).hex()],
+                          [1000, ref_script(name, values).hex()]]}
+            yield t, [None, tpl]
 
 
 def out_of_range_txs():
@@ -1415,7 +1643,11 @@ def main(run):
         'raw/id/size read in between, output scripts regenerated / amounts, sequences, locktime changed IN PLACE, _reset, '
         're-read) and the daemon channel-create / channel-signed-stream flows with a real account (set_channel_private_key, '
         'Output.sign, Transaction.create(sign=False), Transaction.sign) checked against the reference encoding of the '
-        'fields the object holds at that moment; link: B takes Input.spend(A.outputs[i]) / A.outputs[i].ref, then A changes (output or '
+        'fields the object holds at that moment, every raw/id read of the history (stale ones included) compared with the '
+        'cache state machine of Model/C05Cache.v; Transaction.sign runs with the real ledger while another task reads raw/id/size; '
+        'db: corpus, P2WSH-shaped segwit and generated legacy/segwit transactions stored through Database.save_transaction_io / '
+        'insert_transaction and read back with get_transaction / get_txos; parsed outputs built from template values are '
+        're-interpreted (template, values, claim predicates; payloads up to 70001 bytes); link: B takes Input.spend(A.outputs[i]) / A.outputs[i].ref, then A changes (output or '
         'input added, field edited, signed by the real account), then B is serialised: outpoint hash and txo_ref.id must name A\'s '
         'current id per the reference encoder; outputs of library-built transactions are built from template VALUES while the '
         'expected script comes from an independent script builder (one-byte elements 0x00..0x11 included); raw: upstream fixtures, segwit encodings (reference encoder and extracted '
@@ -1491,6 +1723,8 @@ def main(run):
         run_link(run, model, gen_link(rng))
     env = Env()
     try:
+        for case in db_cases(rng, env, corpus, small_valid, vlib.scaled(T, 150, 2500)):
+            run_db(run, model, env, case)
         for k in range(vlib.scaled(T, 12, 200)):
             run_chain_flow(run, model, env, {'op': 'flow', 'flow': 'chain', 'how': rng.choice(['sign', 'sign', 'change', 'both']),
                                              'seed': rng.getrandbits(48)})
@@ -1564,6 +1798,12 @@ def replay(run, case):
         run_cs_read(run, model, bytes.fromhex(case['s']), 'replay')
     elif op == 'seq':
         run_sequence(run, model, {k: v for k, v in case.items() if k != 'at'})
+    elif op == 'db':
+        env = Env()
+        try:
+            run_db(run, model, env, case)
+        finally:
+            env.close()
     elif op == 'link':
         run_link(run, model, {k: v for k, v in case.items() if k != 'where'})
     elif op == 'flow':
